@@ -482,6 +482,10 @@ func (tg *txnGen) wait(t *dyn.Table) TOp {
 		}
 		rows = append(rows, pr)
 	}
+	if g.Chance(0.2) {
+		// "columns" omitted: every column the expected rows provide is compared
+		cols = nil
+	}
 	return TOp{Kind: "wait", Table: t.Name, Where: wh, Cols: cols, Until: []string{"==", "!="}[g.Intn(2)], Rows: rows}
 }
 
